@@ -82,6 +82,28 @@ func runC11(c *Ctx) {
 	}
 	c.Floor("C11.M1-sorted-before-emit", 4)
 
+	// ---- M2' decoding never panics in the varint writer: scratch arrays hold the varints put into them (expected 0,
+	// with a positive example)
+	{
+		var fns []*ssa.Function
+		for _, f := range c.Funcs(metaPkg) {
+			fns = append(fns, f.SSA)
+		}
+		for _, in := range varintScratchOverflows(c, fns) {
+			c.Bad("C11.M2-varint-scratch-holds", c.short(in.Parent().String())+" › PutUvarint", in.Pos(), "varints are written one after the other into a fixed-size array too small for them (10 bytes each for arbitrary values): for large values PutUvarint indexes past the array and decoding panics")
+		}
+		if pc := c.posex(); pc == nil {
+			c.Unk("C11.M2-varint-scratch-holds", "positive example", token.NoPos, "positive example package could not be loaded")
+		} else {
+			var pf []*ssa.Function
+			for _, f := range pc.Funcs("ipnicheck/testdata/posex") {
+				pf = append(pf, f.SSA)
+			}
+			n := len(varintScratchOverflows(pc, pf))
+			c.Check(n == 1, "C11.M2-varint-scratch-holds", "positive example fires", token.NoPos, "rule found the seeded two-varints-in-one-scratch example (and nothing in /repo)", "rule did not find the seeded example: it would pass vacuously")
+		}
+		c.Floor("C11.M2-varint-scratch-holds", 1)
+	}
 	// ---- M2 bounded allocation in every ReadFrom ------------------------------------------------
 	iface, _ := p.Types.Scope().Lookup("Protocol").(*types.TypeName)
 	nImpl := 0
@@ -153,7 +175,8 @@ func onlyUnderUvarintSize(n, v *X) bool {
 		if x == v && !under {
 			ok = false
 		}
-		u := under || (x.Op == "call" && nameMatches(x.Name, "go-varint.UvarintSize"))
+		// (the size of a varint, or the number of bytes PutUvarint wrote: at most 10 whatever the value)
+		u := under || (x.Op == "call" && (nameMatches(x.Name, "go-varint.UvarintSize") || nameMatches(x.Name, "go-varint.PutUvarint") || nameMatches(x.Name, "encoding/binary.PutUvarint")))
 		for _, a := range x.Args {
 			walk(a, u)
 		}
@@ -658,4 +681,61 @@ func c11Cursor(c *Ctx) {
 	_, okSel := Match(c.RoleCall("metadata.factory", Any(), Extract("0", Call("go-varint.FromUvarint", Is(B)))), rd.X.Args[0])
 	c.Check(okSel, "C11.M6-cursor-discipline", key+" › protocol chosen by the code at the cursor", rd.In.Pos(), "the protocol is chosen from the varint at the current position", "protocol not chosen from the code at the current cursor position")
 	c.Floor("C11.M6-cursor-discipline", 3)
+}
+
+// varintScratchOverflows lists PutUvarint calls that write into a fixed-size
+// byte array too small for the varints put into it one after the other: an
+// unbounded uint64 takes up to 10 bytes, so an array receiving k consecutive
+// varints (one at offset 0, the others at running offsets) needs 10·k bytes;
+// PutUvarint panics otherwise.
+func varintScratchOverflows(c *Ctx, fns []*ssa.Function) []ssa.Instruction {
+	var out []ssa.Instruction
+	for _, fn := range fns {
+		byArr := map[*ssa.Alloc][]*ssa.Call{}
+		offs := map[*ssa.Call]bool{}
+		instrs(fn, func(in ssa.Instruction) {
+			call, ok := in.(*ssa.Call)
+			if !ok {
+				return
+			}
+			x := c.CallX(call)
+			if x.Op != "call" || !(nameMatches(x.Name, "go-varint.PutUvarint") || nameMatches(x.Name, "encoding/binary.PutUvarint")) || len(call.Call.Args) != 2 {
+				return
+			}
+			sl, ok := call.Call.Args[0].(*ssa.Slice)
+			if !ok {
+				return
+			}
+			al, ok := sl.X.(*ssa.Alloc)
+			if !ok {
+				return
+			}
+			if _, isArr := deref(al.Type()).Underlying().(*types.Array); !isArr {
+				return
+			}
+			byArr[al] = append(byArr[al], call)
+			if sl.Low != nil {
+				if cst, isC := sl.Low.(*ssa.Const); !isC || cst.Value == nil || cst.Value.ExactString() != "0" {
+					offs[call] = true
+				}
+			}
+		})
+		for al, calls := range byArr {
+			arr := deref(al.Type()).Underlying().(*types.Array)
+			k := 1
+			for _, cl := range calls {
+				if offs[cl] {
+					k++
+				}
+			}
+			if arr.Len() < int64(10*k) {
+				for _, cl := range calls {
+					if offs[cl] || len(calls) == 1 {
+						out = append(out, cl)
+					}
+				}
+			}
+		}
+	}
+	return out
 }
